@@ -94,13 +94,14 @@ def gen_cases(tier, seed):
                  auto_dt={"steps": N, "frac": 0.3, "exact": True, "therm_steps": 3 if c["therm"] else 0})
         drive = {"A": {"kind": "uniform", "B": 0.05}}
         cases.append({"mode": "hooks", "combo": c, "device": dev, "options": o, "drive": drive, "N": N, "seed": int(rng.integers(1 << 30)), "cost": 30})
-    if tier == "thorough":
-        for c in combos[:6]:
+    for c in (combos[:6] if tier == "thorough" else [combos[2], combos[1]]):
+        if True:
             dev = zoo.gen_device(rng, n_terminals=0, probes=0, size="tiny", smooth=0, gamma=1.0)
             dt = 0.002
             o = dict(solve_time=4 * dt - dt / 2, dt_init=dt, dt_max=0.1, adaptive=False, save_every=c["k"], field_units="mT", current_units="uA", output=c["out"],
                      auto_dt={"steps": 4, "frac": 0.3, "exact": True})
-            cases.append({"mode": "lines", "combo": c, "device": dev, "options": o, "drive": {"A": {"kind": "uniform", "B": 0.05}}, "N": 4, "seed": int(rng.integers(1 << 30)), "cost": 200})
+            cases.append({"mode": "lines", "combo": c, "device": dev, "options": o, "drive": {"A": {"kind": "uniform", "B": 0.05}}, "N": 4, "seed": int(rng.integers(1 << 30)),
+                          "max_line_faults": 400 if tier == "thorough" else 60, "cost": 200 if tier == "thorough" else 40})
     return cases
 
 
@@ -451,9 +452,10 @@ def run_case(spec):
         total = probe.count
         C["line_events_in_clean_run"] = total
         ks = list(range(1, total + 1))
-        if total > 400:
+        cap = int(spec.get("max_line_faults", 400))
+        if total > cap:
             rng = np.random.default_rng(spec["seed"])
-            ks = sorted(set(rng.choice(ks, 400, replace=False).tolist()))
+            ks = sorted(set(rng.choice(ks, cap, replace=False).tolist()))
         for k in ks:
             for kind in ("err", "kbd"):
                 lf = LineFault(codes, k, kind)
